@@ -1,9 +1,141 @@
+/-
+  C01 — Frame reception is memory-safe and free of undefined behaviour.
+  In the model every read of the received buffer is checked against the image it was given and every write
+  against the allocation it goes into; `fault = none` says no such access was out of bounds.  Lifetime errors
+  (use after free, double free) and UB at expressions the model does not contain cannot be stated in a model with
+  value semantics: they are observed by ASan/UBSan in the correspondence runs only (DESIGN.md section 5).
+-/
+import LLTD.Lemmas.Safe
 import LLTD.Model.Event
-import LLTD.Spec.Block
+import LLTD.Props.C14
+import LLTD.Props.C15
 
 namespace LLTD.C01
-open LLTD LLTD.Spec
+open LLTD
 
-theorem placeholder_layout : X.sizeofDemux = 32 := by decide
+/-- the frame handler never reads outside the MTU-sized receive buffer nor writes outside a buffer it allocated:
+    for every MTU in [576, 9216], every attribute record, every buffer image, every state, every behaviour of the
+    allocator and the transmit path -/
+theorem frame_safe (c : Cfg) (g : Glob) (w : World) (st : Option St) (img : List Nat) (hc : CfgOk c) (hlen : img.length = c.mtu) :
+    (parseFrame c g w st img).2.2.2 = none := by
+  have hlo := hc.mtuLo
+  have hrd : rdOk img 0 (X.sizeofDemux + 4) = true := rdOk_of_le _ _ _ (by simp only [X.sizeofDemux_val]; omega)
+  unfold parseFrame
+  simp only [hrd, Bool.not_true, Bool.false_eq_true, if_false]
+  split
+  · exact parseFrameSt_safe c g w _ img hc (by omega) (by omega)
+  · split
+    · rfl
+    · exact parseFrameSt_safe c g _ _ img hc (by omega) (by omega)
+
+/-- what recvfrom leaves in the buffer is again an MTU-sized image -/
+theorem recvInto_length (img frame : List Nat) (z : Bool) (h : frame.length ≤ img.length) : (recvInto img frame z).length = img.length := by
+  unfold recvInto
+  split <;> simp [zeros, List.length_drop] <;> omega
+
+/-- histories: any sequence of frames of any length up to the MTU, tails kept or zeroed, never faults -/
+def runRx (c : Cfg) (g : Glob) : World × Option St × List Nat → List (List Nat × Bool) → Option Fault
+  | _, [] => none
+  | (w, st, img), (frame, z) :: rest =>
+    let img' := recvInto img frame z
+    let r := parseFrame c g w st img'
+    match r.2.2.2 with
+    | some f => some f
+    | none => runRx c g (r.2.1, r.1, img') rest
+
+theorem history_safe (c : Cfg) (g : Glob) (hc : CfgOk c) (frames : List (List Nat × Bool)) (hf : ∀ f ∈ frames, f.1.length ≤ c.mtu)
+    (w : World) (st : Option St) (img : List Nat) (hlen : img.length = c.mtu) :
+    runRx c g (w, st, img) frames = none := by
+  induction frames generalizing w st img with
+  | nil => rfl
+  | cons f rest ih =>
+    obtain ⟨frame, z⟩ := f
+    have hfl : frame.length ≤ img.length := by rw [hlen]; exact hf (frame, z) (by simp)
+    have hl' : (recvInto img frame z).length = c.mtu := by rw [recvInto_length img frame z hfl, hlen]
+    simp only [runRx, frame_safe c g w st _ hc hl']
+    exact ih (fun x hx => hf x (by simp [hx])) _ _ _ hl'
+
+/-- the Hello always fits: at most 206 bytes, and every legal MTU is at least 576 -/
+theorem hello_fits (c : Cfg) (g : Glob) (gen tos : Nat) (cur app : Mac) (hc : CfgOk c) (h1 : cur.length = 6) (h2 : app.length = 6) :
+    (helloFrame c g gen tos cur app).length ≤ 206 := by
+  rw [helloFrame_length c g gen tos cur app hc h1 h2]
+  have := helloTlvs_length_le c g hc
+  omega
+
+/-- the session-event classifier never reads past the length it was told -/
+theorem stationScan_count (img : List Nat) (base stride : Nat) (our : Mac) : ∀ (k i : Nat), (stationScan img base stride our k i).2 ≤ i + k := by
+  intro k
+  induction k with
+  | zero => intro i; simp [stationScan]
+  | succ k ih =>
+    intro i
+    simp only [stationScan]
+    split
+    · simp
+    · have := ih (i + 1); omega
+
+theorem classifier_footprint (img : List Nat) (tbl : Option Table) (our : Option Mac) :
+    (deriveEvent img tbl our).footprint ≤ img.length := by
+  show deriveFootprint img our ≤ img.length
+  unfold deriveFootprint
+  simp only [X.sizeofDemux_val, X.offDiscList_val, X.strideStation_val, X.offRealDst_val, X.offOpcode_val]
+  by_cases h32 : img.length < 32
+  · simp [h32]
+  · simp only [h32, if_false]
+    by_cases h8 : fOpcode img = X.opReset
+    · simp only [h8, if_true]; omega
+    · simp only [h8, if_false]
+      by_cases h1 : fOpcode img = X.opHello
+      · simp only [h1, if_true]; omega
+      · simp only [h1, if_false]
+        by_cases h0 : fOpcode img = X.opDiscover
+        · simp only [h0, if_true]
+          by_cases h36 : img.length < 32 + 4
+          · simp only [h36, if_true]; omega
+          · simp only [h36, if_false]
+            have hn : (ackScan img our).2 ≤ (img.length - 36) / 6 := by
+              unfold ackScan
+              cases our with
+              | none => simp
+              | some m =>
+                simp only []
+                split
+                · simp
+                · have hs := stationScan_count img (X.sizeofDemux + X.offDiscList) X.strideStation m (stationCount img) 0
+                  have hc : stationCount img ≤ (img.length - 36) / 6 := by
+                    unfold stationCount
+                    simp only [X.sizeofDemux_val, X.offDiscList_val, X.strideStation_val]
+                    by_cases hgt : unbe (slice img (32 + X.offDiscCount) 2) > (img.length - (32 + 4)) / 6
+                    · rw [if_pos hgt]; omega
+                    · rw [if_neg hgt]; omega
+                  omega
+            have hdm := Nat.div_mul_le_self (img.length - 36) 6
+            by_cases hz : (ackScan img our).2 = 0
+            · rw [if_pos hz]; omega
+            · rw [if_neg hz]; omega
+        · simp only [h0, if_false]; omega
+
+/-- the length-checked embedded entry point never reads past the length it was told, and does nothing at all
+    with a frame shorter than the demultiplex header -/
+theorem esp32_footprint (frame : List Nat) : espFootprint frame ≤ frame.length := by
+  unfold espFootprint
+  simp only [X.sizeofDemux_val, X.offOpcode_val]
+  by_cases h : frame.length < 32
+  · rw [if_pos h]; omega
+  · rw [if_neg h]; omega
+
+theorem esp32_short_noop (fm fs fe : Fsm) (frame : List Nat) (now : Nat) (h : frame.length < 32) :
+    espHandleFrame fm fs fe frame now = (fm, fs, fe) := by
+  simp [espHandleFrame, h]
+
+/-- no automaton ever indexes outside its states_table: the three tables as built at run time stay below
+    MAX_STATES (rows of the mapping / session tables: C14.rows_in_range, C15.rows_in_range) -/
+theorem enumeration_rows_in_range : ∀ r ∈ X.enumerationTable, r.1 < X.enumerationStatesNo ∧ r.2.1 < X.enumerationStatesNo := by decide
+
+theorem tables_fit : X.mappingStatesNo ≤ X.maxStates ∧ X.sessionStatesNo ≤ X.maxStates ∧ X.enumerationStatesNo ≤ X.maxStates ∧
+    X.mappingTable.length ≤ X.maxTransitions ∧ X.sessionTable.length ≤ X.maxTransitions ∧ X.enumerationTable.length ≤ X.maxTransitions := by decide
+
+/-- non-vacuity: the smallest legal configuration -/
+example : CfgOk { mac := [2, 0, 0, 0, 0, 1], mtu := 576 } := ⟨rfl, rfl, rfl, rfl, by decide, by decide⟩
 
 end LLTD.C01
